@@ -35,6 +35,8 @@ type PriorityQueue[K any, V any, CTX any] struct {
 	size int
 	heap []*Element[K, V, CTX]
 	comp skiplist.Comparator[K]
+	// failed is the error an iterator returned while the heap was refilled, Next keeps returning it
+	failed error
 }
 
 func (pq *PriorityQueue[K, V, CTX]) lessThan(i, j *Element[K, V, CTX]) bool {
@@ -66,6 +68,11 @@ func (pq *PriorityQueue[K, V, CTX]) init(iterators []IteratorWithContext[K, V, C
 }
 
 func (pq *PriorityQueue[K, V, CTX]) Next() (_ K, _ V, _ CTX, err error) {
+	if pq.failed != nil {
+		err = pq.failed
+		return
+	}
+
 	err = Done
 
 	if pq.size == 0 {
@@ -80,6 +87,9 @@ func (pq *PriorityQueue[K, V, CTX]) Next() (_ K, _ V, _ CTX, err error) {
 	// if we encounter a real error, we're returning immediately
 	if err != nil && !errors.Is(err, Done) {
 		err = fmt.Errorf("NEXT couldn't fill next heap entry: %w", err)
+		// the element that was taken is lost and the top of the heap holds whatever the failed read returned:
+		// the queue can't go on, a caller that calls Next again must not get that element as if it was read
+		pq.failed = err
 		return
 	}
 
